@@ -87,8 +87,12 @@ package atree
 //@ iface Storable.CanCopyNonRefSimple() (r)
 //@   pure
 
+//@ # refsEnumerated: ghost counter of references (SlabIDStorable) on which ChildStorables has been invoked; the health check invokes it
+//@ # on every storable it enumerates, so the counter is the number of references it has seen
+//@ ghost refsEnumerated : int
 //@ iface Storable.ChildStorables() (r)
-//@   modifies alloc
+//@   ghostdef refsEnumerated == old(refsEnumerated) + ite(is(recv, SlabIDStorable), 1, 0)
+//@   modifies ghost.refsEnumerated, alloc
 
 //@ iface Storable.StoredValue(storage) (v, err)
 //@   modifies alloc
